@@ -50,6 +50,9 @@ pub struct Case {
     pub plan: Vec<(u32, u8)>,
     #[serde(default)]
     pub relative: bool,
+    /// also run every plan that adds one more preemption at a later decision
+    #[serde(default)]
+    pub expand: bool,
 }
 
 fn at(x: f32) -> Vec<f32> {
@@ -210,7 +213,7 @@ impl Prop for C07S {
         let mut plan: Vec<(u32, u8)> = (0..npre).map(|_| (t.u16() as u32, 1)).collect();
         plan.sort();
         let writes = raw.chunks.iter().map(|c| WOPS[(c[0] as usize * WOPS.len()) >> 8]).collect();
-        Case { strat, warm, drained, k, searches, writes, plan, relative: true }
+        Case { strat, warm, drained, k, searches, writes, plan, relative: true, expand: false }
     }
     fn run(&self, case: &Case, _env: &CaseEnv) -> Result<CaseReport, Failure> {
         let mut rep = CaseReport::default();
@@ -253,6 +256,21 @@ impl Prop for C07S {
             judge_answer("search with k-1 after both threads finished", &res, path, &model, case.k - 1)?;
         }
         rep.count("decisions", out.decisions as u64);
+        if case.expand && !case.relative {
+            let last = case.plan.iter().map(|(d, _)| *d).max().unwrap_or(0);
+            for (d, (alts, me_ready)) in out.trace.iter().enumerate() {
+                if (d as u32) > last && *alts > 1 && *me_ready {
+                    let mut c = case.clone();
+                    c.expand = false;
+                    c.plan.push((d as u32, 1));
+                    self.run(&c, _env).map_err(|mut f| {
+                        f.msg = format!("[plan {:?}] {}", c.plan, f.msg);
+                        f
+                    })?;
+                    rep.count("evaluations_judged", 1);
+                }
+            }
+        }
         if any_hit {
             rep.label("final_answer_from_cache");
         }
@@ -261,7 +279,7 @@ impl Prop for C07S {
     }
 }
 
-fn pair_cases(ctx: &Ctx) -> Vec<Case> {
+fn pair_cases(ctx: &Ctx, expand: bool) -> Vec<Case> {
     let mut combos = vec![];
     for strat in [Strat::Lru, Strat::LearnedTrained] {
         for warm in 0..3u8 {
@@ -269,7 +287,7 @@ fn pair_cases(ctx: &Ctx) -> Vec<Case> {
                 for k in 1..=3usize {
                     for searches in 1..=2u8 {
                         for w in WOPS {
-                            combos.push(Case { strat, warm, drained, k, searches, writes: vec![*w], plan: vec![], relative: false });
+                            combos.push(Case { strat, warm, drained, k, searches, writes: vec![*w], plan: vec![], relative: false, expand: false });
                         }
                     }
                 }
@@ -294,6 +312,7 @@ fn pair_cases(ctx: &Ctx) -> Vec<Case> {
                         if *alts > 1 && *me_ready {
                             let mut c = base.clone();
                             c.plan = vec![(d as u32, 1)];
+                            c.expand = expand;
                             v.push(c);
                         }
                     }
@@ -311,8 +330,13 @@ pub fn main(ctx: &Ctx) {
     sched::install();
     run_committed_replays(ctx, &C07S { part_name: "race_pairs" });
     run_committed_replays(ctx, &C07S { part_name: "race_programs" });
-    let cases = pair_cases(ctx);
+    let cases = pair_cases(ctx, false);
     run_cases(ctx, &C07S { part_name: "race_pairs" }, "race_pairs", cases, true);
+    if ctx.tier == Tier::Thorough {
+        // complete at preemption bound 2
+        let cases = pair_cases(ctx, true);
+        run_cases(ctx, &C07S { part_name: "race_pairs" }, "race_pairs_bound2", cases, true);
+    }
     run_pbt(ctx, &C07S { part_name: "race_programs" }, ctx.tier.pick(10_000, 300_000));
 }
 
